@@ -45,6 +45,29 @@ theorem sample_values_are_the_source_shift (hapX : Bool) (par : Option String) (
   intro p _
   exact Src.sexAdjust_is_source _ _ _ _
 
+/-- the model's correction pipeline IS the sequence of `center_by_window` calls the translator reads in
+    `bias_correct_logr` (GC, RepeatMasker, edge -- in the source's order), skipped under the source's test -/
+theorem correction_pipeline_is_the_source (cfg : CorrCfg) (rows : List CovRow) (logr : List Rat) :
+    correctLogr cfg rows logr =
+      correctLogrBy (Generated.REF_CORRECTION_STEPS.map (·.1)) Generated.REF_LOWCOV_THRESHOLD
+        Generated.REF_LOWCOV_TEST.2.2 cfg rows logr :=
+  Src.correctLogr_is_source cfg rows logr
+
+/-- each correction runs under its own flag with the window fraction 0.1, and the skip test counts the bins with
+    log2 > threshold and compares the count with `<=` -/
+theorem correction_guards_are_the_source :
+    Generated.REF_CORRECTION_STEPS.map (·.2.1) = ["fix_gc", "fix_rmask", "fix_edge"] ∧
+    Generated.REF_CORRECTION_STEPS.all (fun s => s.2.2 == 1 / 10) = true ∧
+    Generated.REF_LOWCOV_TEST.1 = "Gt" ∧ Generated.REF_LOWCOV_TEST.2.1 = "LtE" :=
+  Src.correction_guards_are_source
+
+/-- which corrections the target and the antitarget block get IS what `combine_probes` writes in its two
+    `load_sample_block` calls -/
+theorem block_flags_are_the_source (doGc doEdge doRmask : Bool) (k : BlockKeys) :
+    blockCfg true doGc doEdge doRmask k = blockCfgBy Generated.REF_TARGET_FLAGS doGc doEdge doRmask k ∧
+    blockCfg false doGc doEdge doRmask k = blockCfgBy Generated.REF_ANTITARGET_FLAGS doGc doEdge doRmask k :=
+  Src.blockCfg_is_source doGc doEdge doRmask k
+
 /-! non-vacuity: the generated expressions on concrete arguments -/
 example : Generated.src_calculate_gc_lo 1 1 1 0 0 1 1 0 = (2/5, 3/5) := by decide +kernel
 example : Generated.src_shift_sex_chroms true false false (-1) (-1/2) = -1/2 := by decide +kernel
